@@ -39,6 +39,7 @@ type lookupRec struct {
 	Released int           `json:"released"`
 	Allowed  [][]int       `json:"allowed"` // table runs: the results Lookup.tla allows for this script (TLC-generated)
 	Table    int           `json:"table"`
+	Stall    int           `json:"stall"` // largest lateness of a 1 ms sleeper while the call ran, microseconds (machine load)
 	Late     int           `json:"late"`  // largest lateness of a scripted send, microseconds
 	Tol      int           `json:"tol"`   // lateness up to which the table verdict is strict
 	Extra    []int         `json:"extra"` // describe: data of the additional (unknown) DIB of the returned response, read after the call
@@ -179,9 +180,11 @@ func runDescribe(o *codec.Out, t *testing.T, timeout time.Duration, script []scr
 			}()
 		}
 	}()
+	meter := stallMeter()
 	t0 := time.Now()
 	res, err := knx.DescribeTunnel(pc.LocalAddr().String(), timeout)
 	r.Elapsed = int(time.Since(t0) / time.Microsecond)
+	r.Stall = meter()
 	r.Err = codec.B2i(err != nil)
 	if res != nil {
 		r.Found = append(r.Found, idxOfName(res.DeviceHardware.FriendlyName))
@@ -241,9 +244,11 @@ func runDiscover(o *codec.Out, t *testing.T, timeout time.Duration, script []scr
 			rc.WriteToUDP(frameFor(e.K, i+1), grp)
 		}
 	}()
+	meter := stallMeter()
 	t0 := time.Now()
 	res, err := knx.Discover(mcastAddr, timeout)
 	r.Elapsed = int(time.Since(t0) / time.Microsecond)
+	r.Stall = meter()
 	close(stop)
 	if err != nil {
 		return false // the group cannot be joined in this environment: no verdict
@@ -344,6 +349,29 @@ func TestC20(t *testing.T) {
 	}
 }
 
+// stallMeter runs a goroutine that sleeps 1 ms at a time and remembers by how much it was woken late: on a loaded
+// machine the call's own timer is late by about as much, which no property of the library can help.
+func stallMeter() (stop func() int) {
+	quit := make(chan struct{})
+	res := make(chan int, 1)
+	go func() {
+		worst := time.Duration(0)
+		for {
+			t0 := time.Now()
+			select {
+			case <-quit:
+				res <- int(worst / time.Microsecond)
+				return
+			case <-time.After(time.Millisecond):
+			}
+			if l := time.Since(t0) - time.Millisecond; l > worst {
+				worst = l
+			}
+		}
+	}()
+	return func() int { close(quit); return <-res }
+}
+
 type tableRow struct {
 	Op    string `json:"op"`
 	Ticks int    `json:"ticks"`
@@ -357,7 +385,7 @@ type tableRow struct {
 // TestC20Table replays the arrival scripts TLC enumerated from Lookup.tla (VERIF_TABLE, written by lib/lookupgen.py)
 // against the real DescribeTunnel / Discover: one model tick is U = 20 ms, an arrival of tick t is sent U/4 into the
 // tick. What the call returned must be one of the results the specification allows for that script (judged by
-// Trace_Codec.tla; strict only when no scripted send was more than U/8 late).
+// Trace_Codec.tla; strict only when neither a scripted send nor a 1 ms sleeper was more than U/5 = 4 ms late).
 func TestC20Table(t *testing.T) {
 	o, err := codec.Open("VERIF_OUT")
 	if err != nil {
@@ -398,7 +426,7 @@ func TestC20Table(t *testing.T) {
 			script = []scriptEntry{}
 		}
 		fill := func(r *lookupRec) {
-			r.Table, r.Allowed, r.Tol = 1, row.Allowed, int(U/8/time.Microsecond)
+			r.Table, r.Allowed, r.Tol = 1, row.Allowed, int(U/5/time.Microsecond)
 			if r.Allowed == nil {
 				r.Allowed = [][]int{}
 			}
